@@ -505,7 +505,7 @@ Lemma fentry_perm q F i' c :
 Proof.
   intros Hi. destruct F as [d rows|d rows]; cbn [perm_feats fentry f_nrow] in *.
   - unfold dentry. rewrite perm_rows_row by exact Hi. reflexivity.
-  - unfold sentry. rewrite (@perm_rows_row (nat * Q) q rows i' Hi). reflexivity.
+  - unfold sentry. f_equal. exact (@perm_rows_row (nat * Q) q rows i' Hi).
 Qed.
 
 Lemma f_ncol_perm q F : f_ncol (perm_feats q F) = f_ncol F.
@@ -550,5 +550,250 @@ Proof.
   { intros j Hj. assert (In j (seq 0 n)) as Hin by (apply in_seq; lia). specialize (H j Hin).
     rewrite !andb_true_iff in H. destruct H as [[[H1 H2] H3] H4].
     apply Nat.ltb_lt in H1. apply Nat.eqb_eq in H2. apply Nat.ltb_lt in H3. apply Nat.eqb_eq in H4. auto. }
-  repeat split; intros j Hj; destruct (G j Hj) as [H1 [H2 [H3 H4]]]; assumption.
+  split; [|split].
+  - intros j Hj. destruct (G j Hj) as [H1 [H2 [H3 H4]]]. split; assumption.
+  - intros j Hj. destruct (G j Hj) as [H1 [H2 [H3 H4]]]. assumption.
+  - intros j Hj. destruct (G j Hj) as [H1 [H2 [H3 H4]]]. assumption.
+Qed.
+
+(* ------------------------------------------------------------------------------------------- *)
+(** * UniformNeighborSampler *)
+(** [r'] is a sample of at most [ss] stored entries of [r], in storage order, all weights reset to 1. *)
+Definition sampled_of (ss : nat) (r r' : srow) : Prop :=
+  exists ts, r' = map (fun t => (fst (nth t r (0%nat, 0)), 1)) ts /\
+             NoDup ts /\ (forall t, In t ts -> (t < length r)%nat) /\
+             (length ts <= Nat.min (length r) ss)%nat.
+
+Lemma sample_row_spec ss r choice r' : sample_row ss r choice = Ok r' -> sampled_of ss r r'.
+Proof.
+  unfold sample_row. cbv zeta.
+  set (k := Nat.min (length r) ss). set (pos := firstn k choice).
+  destruct (forallb (fun t => Nat.ltb t (length r)) pos) eqn:E; [|discriminate].
+  intros H. injection H as H. subst r'.
+  exists (filter (fun t => memn t pos) (seq 0 (length r))). split; [reflexivity|]. split; [|split].
+  - apply NoDup_filter. apply seq_NoDup.
+  - intros t Ht. apply filter_In in Ht. destruct Ht as [Ht _]. apply in_seq in Ht. lia.
+  - transitivity (length pos).
+    + apply NoDup_incl_length; [apply NoDup_filter; apply seq_NoDup|].
+      intros t Ht. apply filter_In in Ht. destruct Ht as [_ Ht]. apply memn_In. exact Ht.
+    + unfold pos. rewrite firstn_length. lia.
+Qed.
+
+Lemma sampled_of_subset ss r r' :
+  sampled_of ss r r' ->
+  (length r' <= ss)%nat /\ (length r' <= length r)%nat /\
+  forall e, In e r' -> snd e = 1 /\ exists e0, In e0 r /\ fst e0 = fst e.
+Proof.
+  intros [ts [E [Hnd [Hlt Hlen]]]]. subst r'. rewrite map_length. split; [lia|]. split; [lia|].
+  intros e He. apply in_map_iff in He. destruct He as [t [Et Ht]]. subst e. cbn [fst snd].
+  split; [reflexivity|]. exists (nth t r (0%nat, 0)). split; [apply nth_In; apply Hlt; exact Ht | reflexivity].
+Qed.
+
+Lemma NoDup_app_l {X} (l1 l2 : list X) : NoDup (l1 ++ l2) -> NoDup l1.
+Proof.
+  induction l1 as [|a t IH]; intros H; [constructor|].
+  cbn in H. inversion H as [|a' l' Hnotin Hnd]; subst. constructor.
+  - intros Hin. apply Hnotin. apply in_or_app. left. exact Hin.
+  - apply IH. exact Hnd.
+Qed.
+
+(** With an answer that honours the contract of [np.random.choice(deg, size, replace=False)] the
+    sample has exactly min(deg, sample_size) entries. *)
+Lemma sample_row_exact ss r choice :
+  NoDup choice -> (forall t, In t choice -> (t < length r)%nat) -> (Nat.min (length r) ss <= length choice)%nat ->
+  exists r', sample_row ss r choice = Ok r' /\ length r' = Nat.min (length r) ss.
+Proof.
+  intros Hnd Hlt Hlen. unfold sample_row. cbv zeta.
+  set (k := Nat.min (length r) ss). set (pos := firstn k choice).
+  assert (forall t, In t pos -> In t choice) as Hin
+      by (intros t Ht; rewrite <- (firstn_skipn k choice); apply in_or_app; left; exact Ht).
+  assert (NoDup pos) as Hndp.
+  { rewrite <- (firstn_skipn k choice) in Hnd. apply NoDup_app_l in Hnd. exact Hnd. }
+  assert (forallb (fun t => Nat.ltb t (length r)) pos = true) as E.
+  { apply forallb_forall. intros t Ht. apply Nat.ltb_lt. apply Hlt. apply Hin. exact Ht. }
+  rewrite E. eexists. split; [reflexivity|]. rewrite map_length.
+  apply Nat.le_antisymm.
+  - transitivity (length pos); [|unfold pos; rewrite firstn_length; lia].
+    apply NoDup_incl_length; [apply NoDup_filter; apply seq_NoDup|].
+    intros t Ht. apply filter_In in Ht. destruct Ht as [_ Ht]. apply memn_In. exact Ht.
+  - transitivity (length pos); [unfold pos; rewrite firstn_length; lia|].
+    apply NoDup_incl_length; [exact Hndp|].
+    intros t Ht. apply filter_In. split; [apply in_seq; specialize (Hlt t (Hin t Ht)); lia | apply memn_In; exact Ht].
+Qed.
+
+Theorem sampler_subset ss A choices A' :
+  sample_rows ss A choices = Ok A' -> Forall2 (sampled_of ss) A A'.
+Proof.
+  revert choices A'. induction A as [|r A IH]; intros choices A' H; cbn [sample_rows] in H.
+  - injection H as H. subst A'. constructor.
+  - destruct (sample_row ss r (hd [] choices)) as [r'|] eqn:E1; [|discriminate].
+    destruct (sample_rows ss A (tl choices)) as [rest|] eqn:E2; [|discriminate].
+    injection H as H. subst A'. constructor; [exact (sample_row_spec _ _ _ _ E1) | exact (IH _ _ E2)].
+Qed.
+
+(* ------------------------------------------------------------------------------------------- *)
+(** * Predictions *)
+Lemma Qltb_lt a b : Qltb a b = true <-> a < b.
+Proof.
+  unfold Qltb. rewrite negb_true_iff. split.
+  - intros H. apply Qnot_le_lt. intros Hle. apply Qle_bool_iff in Hle. congruence.
+  - intros H. destruct (Qle_bool b a) eqn:E; [|reflexivity]. apply Qle_bool_iff in E. lra.
+Qed.
+
+Lemma Qltb_ge a b : Qltb a b = false <-> b <= a.
+Proof.
+  unfold Qltb. rewrite negb_false_iff. apply Qle_bool_iff.
+Qed.
+
+Lemma argmax_from_spec (L : list Q) :
+  forall l pre best besti,
+    L = pre ++ l -> (besti < length pre)%nat -> nthq L besti = best ->
+    (forall x, In x pre -> x <= best) ->
+    let r := argmax_from best besti (length pre) l in
+    (r < length L)%nat /\ forall x, In x L -> x <= nthq L r.
+Proof.
+  induction l as [|x t IH]; intros pre best besti HL Hb Hn Hpre; cbn [argmax_from].
+  - rewrite app_nil_r in HL. subst L. cbv zeta. split; [exact Hb|]. rewrite Hn. exact Hpre.
+  - assert (L = (pre ++ [x]) ++ t) as HL' by (rewrite <- app_assoc; exact HL).
+    assert (length (pre ++ [x]) = S (length pre)) as Hlen by (rewrite app_length; cbn; lia).
+    destruct (Qltb best x) eqn:E.
+    + apply Qltb_lt in E. rewrite <- Hlen. apply IH.
+      * exact HL'.
+      * lia.
+      * rewrite HL. unfold nthq. apply nth_middle.
+      * intros y Hy. apply in_app_or in Hy. destruct Hy as [Hy|[Hy|[]]].
+        -- specialize (Hpre y Hy). lra.
+        -- subst y. lra.
+    + apply Qltb_ge in E. rewrite <- Hlen. apply IH.
+      * exact HL'.
+      * lia.
+      * exact Hn.
+      * intros y Hy. apply in_app_or in Hy. destruct Hy as [Hy|[Hy|[]]].
+        -- exact (Hpre y Hy).
+        -- subst y. exact E.
+Qed.
+
+Lemma argmax_spec (l : list Q) :
+  l <> [] -> (argmax l < length l)%nat /\ forall x, In x l -> x <= nthq l (argmax l).
+Proof.
+  destruct l as [|x t]; [congruence|]. intros _. unfold argmax.
+  apply (argmax_from_spec (x :: t) t [x] x 0%nat).
+  - reflexivity.
+  - cbn. lia.
+  - reflexivity.
+  - intros y [Hy|[]]. subst y. lra.
+Qed.
+
+Lemma predict_row_range row : (1 <= length row)%nat -> (predict_row row < Nat.max (length row) 2)%nat.
+Proof.
+  intros H. destruct row as [|x [|y t]].
+  - cbn in H. lia.
+  - cbn [predict_row length]. destruct (Qltb (1 # 2) x); cbn; lia.
+  - cbn [predict_row]. pose proof (argmax_spec (x :: y :: t)) as [Hlt _]; [discriminate|]. lia.
+Qed.
+
+Theorem predictions_in_range (output : dmat) (o : nat) :
+  (1 <= o)%nat -> (forall row, In row output -> length row = o) ->
+  length (compute_predictions output) = length output /\
+  (forall y, In y (compute_predictions output) -> (y < Nat.max o 2)%nat) /\
+  (forall row, In row output -> (2 <= o)%nat ->
+     (predict_row row < o)%nat /\ forall x, In x row -> x <= nthq row (predict_row row)).
+Proof.
+  intros Ho Hrows. unfold compute_predictions. split; [apply map_length|]. split.
+  - intros y Hy. apply in_map_iff in Hy. destruct Hy as [row [E Hrow]]. subst y.
+    rewrite <- (Hrows row Hrow). apply predict_row_range. rewrite (Hrows row Hrow). exact Ho.
+  - intros row Hrow H2. specialize (Hrows row Hrow).
+    destruct row as [|x [|y t]]; cbn [length] in Hrows; try lia.
+    cbn [predict_row]. rewrite <- Hrows. apply argmax_spec. discriminate.
+Qed.
+
+(** Softmax rows sum to 1 whenever the sum of the exponentials is not 0 (in particular for a positive
+    exp oracle and at least one channel). *)
+Lemma softmax_row_sum expf row : ~ sumq (map expf row) == 0 -> sumq (softmax_row expf row) == 1.
+Proof.
+  intros Hs. unfold softmax_row, g_softmax_row. cbv zeta. fold (sumq (map expf row)).
+  set (s := sumq (map expf row)) in *.
+  change (sumq (map (fun a => a * / s) (map expf row)) == 1).
+  rewrite (sumq_map_scale_r (/ s) (fun a => a)). rewrite map_id. fold s. field. exact Hs.
+Qed.
+
+Lemma sumq_pos (l : list Q) : l <> [] -> (forall x, In x l -> 0 < x) -> 0 < sumq l.
+Proof.
+  induction l as [|a t IH]; [congruence|]. intros _ H. cbn [sumq fold_right].
+  pose proof (H a (or_introl eq_refl)) as Ha.
+  destruct t as [|b t'].
+  - cbn. lra.
+  - assert (0 < sumq (b :: t')) as Ht by (apply IH; [discriminate | intros x Hx; apply H; right; exact Hx]).
+    unfold sumq in Ht. lra.
+Qed.
+
+Theorem softmax_rows_sum_1_Q expf row :
+  (forall x, 0 < expf x) -> row <> [] -> sumq (softmax_row expf row) == 1.
+Proof.
+  intros Hpos Hne. apply softmax_row_sum.
+  assert (0 < sumq (map expf row)) as H.
+  { apply sumq_pos.
+    - destruct row; [congruence | discriminate].
+    - intros x Hx. apply in_map_iff in Hx. destruct Hx as [y [E _]]. subst x. apply Hpos. }
+  intros E. rewrite E in H. lra.
+Qed.
+
+Theorem probability_rows sqrtf expf L A F :
+  (l_act L = Softmax \/ l_act L = CrossEntropyLoss) -> (1 <= l_out L)%nat -> (forall x, 0 < expf x) ->
+  forall row, In row (forward sqrtf expf L A F) -> length row = l_out L /\ sumq row == 1.
+Proof.
+  intros Hact Ho Hpos row Hrow. unfold forward, embedding in Hrow. rewrite map_map in Hrow.
+  apply in_map_iff in Hrow. destruct Hrow as [r [E _]]. subst row.
+  set (x := affine_row L (f_ncol F) (message_row F r)).
+  assert (length x = l_out L) as Hx by (unfold x, affine_row; rewrite map_length, seq_length; reflexivity).
+  assert (act_row expf (l_act L) x = softmax_row expf x) as Ea by (destruct Hact as [H|H]; rewrite H; reflexivity).
+  rewrite Ea. split.
+  - unfold softmax_row, g_softmax_row. cbv zeta. rewrite !map_length. exact Hx.
+  - apply softmax_rows_sum_1_Q; [exact Hpos|]. destruct x; [cbn in Hx; lia | discriminate].
+Qed.
+
+Theorem predict_proba_multi (output : dmat) (o : nat) :
+  (2 <= o)%nat -> (forall row, In row output -> length row = o) -> predict_proba output = Ok output.
+Proof.
+  intros Ho Hrows. destruct output as [|row rest]; [reflexivity|].
+  specialize (Hrows row (or_introl eq_refl)). destruct row as [|x [|y t]]; cbn in Hrows; try lia; reflexivity.
+Qed.
+
+(** Single output channel: the coded call [np.vstack(1 - probs, probs)] raises, although the two-column
+    matrix the docstring describes would have rows summing to 1. *)
+Theorem predict_proba_single_refuted :
+  exists output : dmat,
+    (forall row, In row output -> length row = 1%nat) /\ output <> [] /\
+    predict_proba output = Err TypeError /\
+    forall row, In row (predict_proba_intended output) -> sumq row == 1.
+Proof.
+  exists [[1 # 4]; [3 # 4]]. split; [|split; [|split]].
+  - intros row [H|[H|[]]]; subst row; reflexivity.
+  - discriminate.
+  - reflexivity.
+  - intros row [H|[H|[]]]; subst row; reflexivity.
+Qed.
+
+Theorem predict_proba_intended_rows (output : dmat) :
+  (forall row, In row output -> length row = 1%nat) ->
+  forall row, In row (predict_proba_intended output) -> length row = 2%nat /\ sumq row == 1.
+Proof.
+  intros H row Hrow. unfold predict_proba_intended in Hrow. apply in_map_iff in Hrow.
+  destruct Hrow as [r [E Hr]]. specialize (H r Hr). destruct r as [|p [|y t]]; cbn in H; try lia.
+  subst row. split; [reflexivity|]. cbn. ring.
+Qed.
+
+Lemma Forall2_impl {X Y} (P Q : X -> Y -> Prop) l1 l2 :
+  (forall a b, P a b -> Q a b) -> Forall2 P l1 l2 -> Forall2 Q l1 l2.
+Proof. intros H. induction 1; constructor; auto. Qed.
+
+(** The statement of the property: for every choice stream on which the sampler returns, each sampled
+    row has at most sample_size entries, no more than the row, all of weight 1, taken from the row. *)
+Theorem sampler_subset_explicit ss A choices A' :
+  sample_rows ss A choices = Ok A' ->
+  Forall2 (fun r r' : srow =>
+             (length r' <= ss)%nat /\ (length r' <= length r)%nat /\
+             forall e, In e r' -> snd e = 1 /\ exists e0, In e0 r /\ fst e0 = fst e) A A'.
+Proof.
+  intros H. apply (Forall2_impl (sampled_of ss)); [apply sampled_of_subset | exact (sampler_subset _ _ _ _ H)].
 Qed.
